@@ -216,11 +216,14 @@ fn link_game(i: u64) -> Option<C12Case> {
         11 => mk(dir, "link/.", 0o040700, "", b""),
         _ => mk(dir, "link//", 0o100600, "", b"regular file spelled with trailing slashes"),
     };
-    let mut files = vec![mk(dir, "first", 0o100644, "", b"a regular file first"), link, second];
-    if i / 16 / 13 / 2 == 1 {
+    // both orders: "link, then something at or below it" and "something, then a link at its path"
+    // (whatever is done to the first entry's path later - chmod, utimes - then follows the link)
+    let reversed = (i / (16 * 13 * 2 * 2)) % 2 == 1;
+    let mut files = if reversed { vec![mk(dir, "first", 0o100644, "", b"a regular file first"), second, link] } else { vec![mk(dir, "first", 0o100644, "", b"a regular file first"), link, second] };
+    if (i / 16 / 13 / 2) % 2 == 1 {
         files.push(mk(dir, "zlast", 0o100644, "", b"after the games"));
     }
-    if i >= 16 * 13 * 2 * 2 {
+    if i >= 16 * 13 * 2 * 2 * 2 {
         return None;
     }
     Some(C12Case::Hostile { files })
@@ -234,7 +237,7 @@ impl Property for C12 {
         C12
     }
     fn rule(&self) -> String {
-        "positive: packages built from consistent file trees (nested directories, explicit directory entries, symlinks, all 12 permission bits, every compressor) - every entry must exist at target+path with content, permission bits and link target, result Ok; hostile: hand-encoded packages with '..' in directory or base names, absolute base names, empty names, duplicate paths, a symlink followed by a file at or below it, FIFO/char/block/socket/unknown file types, dirnames without leading '/'. Each case is extracted by a forked child chroot()ed into a fresh jail with sentinel files; everything in the jail outside the target is snapshotted before and after. Non-trivial = at least one entry extracted or an error after the target was created; distinct by case hash.".into()
+        "positive: packages built from consistent file trees (nested directories, explicit directory entries, symlinks, all 12 permission bits, every compressor) - every entry must exist at target+path with content, permission bits and link target, result Ok; hostile: hand-encoded packages with '..' in directory or base names, absolute base names, empty names, duplicate paths, a symlink followed by a file/directory/link at or below it and the reverse order (16 link targets x 13 second entries x 2 depths x 2 orders), FIFO/char/block/socket/unknown file types, dirnames without leading '/'. Each case is extracted by a forked child chroot()ed into a fresh jail with sentinel files; everything in the jail outside the target is snapshotted before and after. Non-trivial = at least one entry extracted or an error after the target was created; distinct by case hash.".into()
     }
     fn assumptions(&self) -> Vec<String> {
         vec![
@@ -249,7 +252,7 @@ impl Property for C12 {
         vec![
             Phase::Random {
                 name: "built-trees",
-                cases: tier.pick(1_500, 80_000),
+                cases: tier.pick(4_000, 80_000),
                 strat: Arc::new(|| {
                     config_any(CfgParams { max_files: 8, sizes: size_small(), comp: comp_fast(), sign_prob: 0.0, file_kinds: true, force_large_prob: 0.1, rich_meta: false })
                         .prop_map(|mut c| {
@@ -259,8 +262,8 @@ impl Property for C12 {
                         .boxed()
                 }),
             },
-            Phase::Enumerate { name: "link-games", total: 16 * 13 * 2 * 2, exhaustive: true, gen: Arc::new(link_game) },
-            Phase::Random { name: "hostile", cases: tier.pick(4_000, 300_000), strat: Arc::new(|| hostile_files().prop_map(|files| C12Case::Hostile { files }).boxed()) },
+            Phase::Enumerate { name: "link-games", total: 16 * 13 * 2 * 2 * 2, exhaustive: true, gen: Arc::new(link_game) },
+            Phase::Random { name: "hostile", cases: tier.pick(12_000, 300_000), strat: Arc::new(|| hostile_files().prop_map(|files| C12Case::Hostile { files }).boxed()) },
         ]
     }
     fn check(&self, case: &C12Case) -> Outcome {
